@@ -941,6 +941,9 @@ func (c *Ctx) indexAccesses() map[*types.Func]*indexAccess {
 						return true
 					})
 				}
+				if !mat && reachedOnlyOnMiss(pm, as, ix) {
+					mat = true
+				}
 				if mat {
 					ia.mater[m] = append(ia.mater[m], as.Pos())
 				} else {
@@ -963,6 +966,69 @@ func (c *Ctx) indexAccesses() map[*types.Func]*indexAccess {
 	})
 	c.memo["indexAccesses"] = out
 	return out
+}
+
+// reachedOnlyOnMiss: the store M[K] = … is preceded, in its own or an enclosing
+// statement list, by a guard that leaves when a lookup of the same map with the
+// same key hits:
+//
+//	if v, ok := M[K]; ok { return v }        or        v, ok := M[K]; if ok { return v }
+//
+// so the store is the materialisation of a missing entry (get-or-create written
+// with a guard clause instead of an `if !ok { … }` block).
+func reachedOnlyOnMiss(pm parentMap, store ast.Stmt, ix *ast.IndexExpr) bool {
+	sameLookup := func(e ast.Expr) bool {
+		ix2, ok := unparen(e).(*ast.IndexExpr)
+		return ok && exprString(ix2.X) == exprString(ix.X) && exprString(ix2.Index) == exprString(ix.Index)
+	}
+	terminates := func(b *ast.BlockStmt) bool {
+		if len(b.List) == 0 {
+			return false
+		}
+		switch last := b.List[len(b.List)-1].(type) {
+		case *ast.ReturnStmt:
+			return true
+		case *ast.BranchStmt:
+			return last.Tok == token.CONTINUE || last.Tok == token.BREAK
+		case *ast.ExprStmt:
+			return endsInPanic([]ast.Stmt{last})
+		}
+		return false
+	}
+	var cur ast.Node = store
+	for cur != nil {
+		parent := pm[cur]
+		var list []ast.Stmt
+		switch p := parent.(type) {
+		case *ast.BlockStmt:
+			list = p.List
+		case *ast.CaseClause:
+			list = p.Body
+		}
+		for i, st := range list {
+			if ast.Node(st) == cur {
+				break
+			}
+			is, ok := st.(*ast.IfStmt)
+			if !ok || is.Else != nil || !terminates(is.Body) {
+				continue
+			}
+			okName := strings.TrimSpace(exprString(is.Cond))
+			if as, ok := is.Init.(*ast.AssignStmt); ok && len(as.Lhs) == 2 && len(as.Rhs) == 1 && exprString(as.Lhs[1]) == okName && sameLookup(as.Rhs[0]) {
+				return true
+			}
+			if is.Init == nil && i > 0 {
+				if as, ok := list[i-1].(*ast.AssignStmt); ok && len(as.Lhs) == 2 && len(as.Rhs) == 1 && exprString(as.Lhs[1]) == okName && sameLookup(as.Rhs[0]) {
+					return true
+				}
+			}
+		}
+		if _, isFn := parent.(*ast.FuncLit); isFn {
+			return false
+		}
+		cur = parent
+	}
+	return false
 }
 
 func init() {
